@@ -139,6 +139,9 @@ def judge_loader(d):
     elif d["ms_form"] == "list":
         ms = [m * scale for m in ms_px]
         lim = np.array(ms_px)
+    elif d["ms_form"] == "ndarray":
+        ms = np.array([m * scale for m in ms_px], dtype=np.float64)
+        lim = np.array(ms_px)
     else:
         ms = tuple(m * scale for m in ms_px)
         lim = np.array(ms_px)
@@ -148,9 +151,13 @@ def judge_loader(d):
         kw["rotations"] = Rotation.from_rotvec(np.array([[0.0, 0.0, 0.0]] + d["rots"]))
     route = d["route"]
     tag = f"{d['model']} route={route} max_shifts={ms!r} ({type(ms).__name__}) scale={scale} shape={shape} K={1 + len(d['rots'])}"
+    ms_before = np.array(ms, dtype=np.float64, copy=True)
     with warnings.catch_warnings():
         warnings.simplefilter("ignore")
         try:
+            if d.get("twice"):
+                # the caller reuses its max_shifts object for a second round (iterative refinement): same limits again
+                loader.align(tmpls[0], max_shifts=ms, alignment_model=Model, **kw)
             if route == "align":
                 res = loader.align(tmpls[0], max_shifts=ms, alignment_model=Model, **kw).molecules
             elif route == "align-stack":
@@ -177,6 +184,8 @@ def judge_loader(d):
             where = [f"{f.filename.split('/')[-1]}:{f.name}" for f in tb if "/acryo/" in f.filename]
             out.append(viol(f"C05/loader-raises:{route}:{type(e).__name__}", f"{tag}: {type(e).__name__}: {e} at {where[-1]}"))
             return out
+    if not np.array_equal(np.array(ms, dtype=np.float64), ms_before):
+        out.append(viol("C05/max-shifts-argument-modified", f"{tag}: the caller's max_shifts object was changed to {np.array(ms).tolist()}"))
     if len(res) != n:
         out.append(viol("C05/loader-length", f"{tag}: {len(res)} molecules"))
         return out
@@ -287,9 +296,9 @@ def loader_cases(draw):
     model = draw(st.sampled_from(["ZNCC", "NCC", "PCC", "FSC"]))
     fsc = model == "FSC"
     shape = draw(gen.box_shapes(6, 10 if fsc else 12))
-    form = draw(st.sampled_from(["scalar", "scalar", "tuple", "list", "int-scalar", "np-scalar"]))
+    form = draw(st.sampled_from(["scalar", "scalar", "tuple", "list", "int-scalar", "np-scalar", "ndarray", "ndarray"]))
     c0, v0 = draw(max_shift_value(min(shape), cap=2.5 if fsc else 6.0))
-    if form in ("tuple", "list") and draw(st.booleans()):
+    if form in ("tuple", "list", "ndarray") and draw(st.booleans()):
         ms = [draw(max_shift_value(s, cap=2.5 if fsc else 6.0))[1] for s in shape]
     else:
         ms = [v0] * 3
@@ -300,7 +309,8 @@ def loader_cases(draw):
             "order": draw(st.sampled_from([1, 3])), "n": n, "seed": draw(gen.seeds),
             "offs": [[round(draw(st.floats(-0.5, 0.5)), 3) for _ in range(3)] for _ in range(4)],
             "rots_m": [draw(gen.rotvecs()) for _ in range(4)], "rots": rots,
-            "route": draw(st.sampled_from(["align", "align-stack", "align-list", "multi", "notemplate", "group", "group-multi"]))}
+            "route": draw(st.sampled_from(["align", "align-stack", "align-list", "multi", "notemplate", "group", "group-multi"])),
+            "twice": draw(st.booleans())}
 
 
 def normalize_grid(tier):
